@@ -116,7 +116,12 @@ def run(chk, tier, want):
         chosen += rng.sample(withseed, min(per, len(withseed)))
     rp = SeedReplayer(chk.seed)
     vi = 0
-    for st in chosen:
+    for n_prog, st in enumerate(chosen):
+        if n_prog and n_prog % 40 == 0:
+            # thousands of compiled executables in one process end in a crash inside XLA's compiler (mapped-memory limits):
+            # drop the ones of programs that are finished
+            rp.fns.clear()
+            jax.clear_caches()
         prog = _prog_json(st["prog"])
         pname = canon_prog(prog)
         results = {}
